@@ -32,6 +32,11 @@ NOT_FUNCS = {"np.bitwise_not", "numpy.bitwise_not", "np.logical_not",
 
 
 MUTANTS = [
+    ("membership look-up told the queried pixels are unique",
+     "AegeanTools/regions.py",
+     "        result = np.isin(pix, list(pixelset))\n",
+     "        result = np.isin(pix, list(pixelset), assume_unique=True)\n",
+     "C10-R12"),
     ("region files cached by name", "AegeanTools/regions.py",
      "    @classmethod\n    def load(cls, mimfile):",
      "    @classmethod\n    @functools.lru_cache(maxsize=32)\n"
@@ -745,6 +750,13 @@ def run(ctx):
                   "; ".join(d for _, d in _st[:3]),
                   node=_st[0][0] if _st else _f.node)
     ctx.floor("C10-R11", _n, 20, "functions examined for shared state")
+    # ---------------------------------------------------------------- R12
+    # the mask is exactly the membership answer: grid positions that share a
+    # HEALPix pixel repeat in the query, so isin must run without
+    # assume_unique / invert (rule shared with C09-R6 / C08-R13 / C11-R8)
+    from ..regionmodel import region_methods as _rm
+    from .c09 import membership_for as _mf
+    _mf(ctx, prog, _rm(prog), "C10-R12")
     # ---------------------------------------------------------------- R8
     ctx.rule("C10-R8", "undefined coordinates are never inside: the "
              "non-finite mask of Region.sky_within is taken from values that "
